@@ -7,9 +7,10 @@ import asyncio
 from esrally.client import context as client_context
 from esrally.driver import runner
 
+from harness.common import concrete
 from harness.execenv import Client, Clock
 from symx import core
-from symx.core import choose, fresh_bool, observe, shadowed
+from symx.core import choose, fresh_bool, fresh_int, observe, shadowed
 from symx.explore import Harness
 
 PROPERTY = "C18"
@@ -327,6 +328,58 @@ def composite_streams(sl):
                                                                    outer.request_end == core.s_max(*[wire[n][1] for n in names])))
 
 
+# the order in which aiohttp's tracing signals arrive for one HTTP request (aiohttp tracing reference; rally issue #1860 for the last one)
+WIRE_SEQUENCES = {
+    "response with a body in one chunk": ["start", "end", "chunk"],
+    "large / streamed response": ["start", "end", "chunk", "chunk", "chunk"],
+    "response without a body": ["start", "end"],
+    "request fails before a response arrives (refused, reset, timeout)": ["start", "exception"],
+    "client timeout while the body is read: request end signalled, exception handler not called": ["start", "end", "chunk"],
+    "headers arrive, then the connection breaks": ["start", "end", "exception"],
+}
+
+
+def wire_hooks(sl):
+    """the hooks the REAL EsClientFactory.create_async registers on aiohttp's tracing signals, driven with each documented signal order on a
+    symbolic clock: a wire request's start is its request-start signal, its end the LAST signal aiohttp sends for it"""
+    from esrally.client import factory
+
+    clock = Clock()
+    names = sorted(WIRE_SEQUENCES)
+    seqs = [names[concrete(fresh_int("signal_order_of_wire_request_%d" % i, 0, len(names) - 1))] for i in range(sl["requests"])]
+    times = []
+
+    async def main():
+        f = factory.EsClientFactory([{"host": "localhost", "port": 9200}], {})
+        c = f.create_async(client_id=0)
+        try:
+            tc = list(c.transport.node_pool.all())[0].trace_configs[0]
+            signals = {"start": tc.on_request_start, "end": tc.on_request_end, "chunk": tc.on_response_chunk_received, "exception": tc.on_request_exception}
+            with c.new_request_context() as outer:
+                for name in seqs:
+                    ctx = tc.trace_config_ctx()  # aiohttp creates one context object per request
+                    mine = []
+                    for sig in WIRE_SEQUENCES[name]:
+                        before = clock.tick()  # time passes between two signals whether or not a hook looks at the clock
+                        for cb in signals[sig]:
+                            await cb(None, ctx, None)
+                        mine.append((sig, before, clock.now))
+                    times.append(mine)
+            return outer
+        finally:
+            await c.close()
+
+    with shadowed(client_context, (), extra={"time": clock.time_ns()}):
+        outer = _run(main)
+    core.note("signal orders", seqs)
+    core.trace("requests", len(times))
+    first, last = times[0][0], times[-1][-1]
+    observe("the logical request starts with the first wire request's start signal",
+            outer.request_start is not None and core.s_and(outer.request_start >= first[1], outer.request_start <= first[2]))
+    observe("and ends with the last signal of its last wire request (complete body / failure), not with an earlier one",
+            outer.request_end is not None and core.s_and(outer.request_end >= last[1], outer.request_end <= last[2]))
+
+
 READS = [client_context.RequestContextManager.__enter__, client_context.RequestContextManager.__exit__,
          client_context.RequestContextHolder.update_request_start, client_context.RequestContextHolder.update_request_end,
          client_context.RequestContextHolder.on_request_start, client_context.RequestContextHolder.on_request_end,
@@ -336,6 +389,10 @@ STUBS = ["clock: time.perf_counter inside esrally.client.context / time.time ins
          "wire requests are calls of on_request_start/on_request_end as the transport makes them"]
 
 HARNESSES = [
+    Harness("wire_hooks", wire_hooks, "symbolic", lambda tier: [{"requests": 1}, {"requests": 2}],
+            reads=READS + [__import__("esrally.client.factory", fromlist=["x"]).EsClientFactory.create_async], stubs=["clock", "aiohttp itself is not run: its tracing signals are delivered by the harness in the documented orders (listed in the bounds)"],
+            bounds={"wire requests": "1..2 in one logical request", "signal orders": sorted(WIRE_SEQUENCES)}, real_valued=True,
+            doc="hook wiring of the async client: start / end of wire requests as aiohttp signals them"),
     Harness("composite_streams", composite_streams, "symbolic", lambda tier: [{"max_connections": m} for m in (1, 2, 16)],
             reads=READS + [runner.Composite.__call__, runner.Composite.run_stream], stubs=STUBS + ["runner_for inside esrally.driver.runner returns gated stub runners"],
             bounds={"structure": "two concurrent single-operation streams followed by one operation", "max-connections": "1, 2, 16",
